@@ -42,5 +42,24 @@ def main():
         f.write('end Borno.TieDigests\n')
     print('blessed')
 
+def snapshot():
+    """copy of the reviewed Go sources under another module path (blessed/borno): the reference the differential
+    fuzzer compares /repo with after a fingerprint has changed (harness/difffuzz)"""
+    import shutil
+    repo = '/repo'
+    dst = os.path.join(ROOT, 'blessed', 'borno')
+    shutil.rmtree(dst, ignore_errors=True)
+    for pkg in ('ast', 'environment', 'interpreter', 'lexer', 'parser', 'token', 'utils'):
+        os.makedirs(os.path.join(dst, pkg), exist_ok=True)
+        for fn in sorted(os.listdir(os.path.join(repo, pkg))):
+            if fn.endswith('.go') and not fn.endswith('_test.go'):
+                src = open(os.path.join(repo, pkg, fn), encoding='utf-8').read()
+                open(os.path.join(dst, pkg, fn), 'w', encoding='utf-8').write(src.replace('github.com/ah-naf/borno/', 'blessedborno/'))
+    gomod = open(os.path.join(repo, 'go.mod'), encoding='utf-8').read().replace('module github.com/ah-naf/borno', 'module blessedborno')
+    open(os.path.join(dst, 'go.mod'), 'w', encoding='utf-8').write(gomod)
+    shutil.copyfile(os.path.join(repo, 'go.sum'), os.path.join(dst, 'go.sum'))
+    print('snapshot written to', dst)
+
 if __name__ == '__main__':
     main()
+    snapshot()
